@@ -618,7 +618,7 @@ fn main() {
 
     let small = args.tier == "miri" || args.tier == "tsan";
     // base sequences; each is also run in 3 random permutations (4 runs per group)
-    let n_groups = if small { 13 } else { args.size(5_000, 250_000) };
+    let n_groups = if small { 13 } else { args.size(5_000, 750_000) };
     let max_len = if small { 8 } else { N_MAX };
     // log everything at quick, a strided subset (<= ~5k groups = 20k runs) at thorough
     let log_stride = n_groups.div_ceil(5_000).max(1);
